@@ -209,6 +209,10 @@ def ob_accept(version: int, as2: int, as4: int, hold: int, conf: int) -> bool:
     remote_as = P['remote_as']
     with_cap = P['with_cap']
     w = S.in_state(S.OPENSENT, {'remote_as': remote_as, 'hold_time': conf})
+    if P.get('remembered_id'):
+        # the BGP identifier the peer used in an earlier session (the same one / another one) is still remembered:
+        # acceptance depends on version, AS and hold time only
+        w.peering.peer_id = P['remembered_id']
     mark = w.mark()
     caps = S.cap_as4(as4) if with_cap else b''
     w.ev_data(S.rfc_open(version, as2, hold, 0x0A000002, caps))
@@ -305,6 +309,13 @@ def obligations(tier, seed):
                           {'remote_as': remote_as, 'with_cap': with_cap},
                           covers=['rejected'] + (['accepted'] if (with_cap or remote_as < 65536) else []),
                           cap=200 if quick else 600))
+            for rid in ('10.0.0.2', '10.9.9.9'):
+                if quick and not (remote_as == 65002 and with_cap):
+                    continue
+                out.append(ob('C05/accept/remote=%d/cap65=%s/remembered-id=%s' % (remote_as, with_cap, rid), 'ob_accept',
+                              {'remote_as': remote_as, 'with_cap': with_cap, 'remembered_id': rid},
+                              covers=['rejected'] + (['accepted'] if (with_cap or remote_as < 65536) else []),
+                              cap=200 if quick else 600))
     for lc in (True, False):
         for pc in (True, False):
             for (las, ras) in ((65001, 65002), (70000, 65002), (65001, 200000), (70000, 200000)):
